@@ -58,3 +58,9 @@ PLAN = {
 }
 
 SEGWIT_TYPES = {"Wpkh", "Wsh", "ShWpkh", "ShWsh", "Tr"}
+
+# BIP-174 updater role: (redeem_script, witness_script) recorded for an input / output of each type
+PSBT_SCRIPTS = {
+    "Bare": (None, None), "Pkh": (None, None), "Wpkh": (None, None),
+    "Wsh": (None, E), "Sh": (E, None), "ShWsh": (("p2wsh", E), E), "ShWpkh": (("p2wpkh", K), None),
+}
